@@ -38,7 +38,9 @@ Ltac split_ifs H :=
           | context [match ?k with KBool => _ | KUInt => _ | KInt => _ end] => destruct k; try discriminate H
           end).
 
-Ltac solve_cell H := revert H; unfold_all H; close_enums; cbn [andb orb negb implb]; intros H; split_ifs H; lia.
+Ltac norm_cell H := revert H; unfold_all H; close_enums; unfold_all H; close_enums; unfold_all H; close_enums;
+  cbn [andb orb negb implb]; intros H; split_ifs H.
+Ltac solve_cell H := norm_cell H; lia.
 
 Lemma accept_sound_ts : forall ts rows cols nd sh2 ba bs pi pr pl dk ds lo hi,
   1 <= rows -> 1 <= cols -> In ds [1; 2; 4; 8] ->
@@ -48,9 +50,7 @@ Lemma accept_sound_ts : forall ts rows cols nd sh2 ba bs pi pr pl dk ds lo hi,
 Proof.
   intros ts rows cols nd sh2 ba bs pi pr pl dk ds lo hi Hr Hc Hds H.
   assert (Hds' : ds = 1 \/ ds = 2 \/ ds = 4 \/ ds = 8) by (cbn in Hds; intuition lia). clear Hds.
-  destruct ts; [admit|admit| |admit|admit|admit|admit|admit|admit]. destruct nd, pl as [z|], pi as [[]|].
-  all: try solve [solve_cell H].
-  all: revert H; unfold_all H; close_enums; cbn [andb orb negb implb]; intros H; split_ifs H. Show.
+  destruct ts, nd, pl as [z|], pi as [[]|]; solve_cell H.
 Qed.
 
 (* for EVERY parameter combination (all integers, not a finite matrix): accepted
@@ -73,3 +73,4 @@ Proof.
   destruct (accept_sound_all p (list_min f) (list_max f) Hr Hc Hd) as [H|H]; [|congruence|congruence].
   unfold accepts. now rewrite Hchk.
 Qed.
+
